@@ -13,16 +13,61 @@ import (
 
 func init() {
 	Registry["C04"] = func(replay string) int { return runLedgerCheck("C04", replay) }
-	Registry["C05"] = func(replay string) int { return runLedgerCheck("C05", replay) }
 }
 
 var ledgerKinds = []TxKind{KTransfer, KCreateOK, KSstore, KSclear, KLogRevert, KOutOfGas, KSuicide, KSuicide2, KIntrinsicLow, KValueTooHigh, KBurn, KInvalid, KCreateFail, KErc20Burn, KErc20Transfer, KCreateValueHigh}
 var ledgerFees = []FeeKind{FLegacyB, FLegacy2B, FDynTip0, FDynTip1Cap}
 
+// Value-recipient kinds of C04 (kit.go): who receives the value is a dimension of its own. Module accounts are the interesting
+// recipients (the evm module account is the mint/burn relay that must end empty, the fee collector must gain fees only);
+// "@..." recipients are ordinary ones (positive controls of the gadgets).
+//
+// c04RecipientKindsWide goes into the single-tx product and the two-block histories, c04RecipientKindsPair (a subset) also into
+// the full two-tx product together with the 16 basic kinds.
+var c04RecipientKindsWide, c04RecipientKindsPair = func() (wide, pair []TxKind) {
+	for _, r := range ModuleRecipients {
+		wide = append(wide, KRecipient(ModePay, r))
+	}
+	wide = append(wide, KRecipient(ModePay, RcpSelf), KRecipient(ModePay, RcpWallet))
+	for _, r := range GadgetRecipients {
+		wide = append(wide, KRecipient(ModeForward, r), KRecipient(ModeSuicide, r))
+	}
+	for _, r := range []Recipient{"evm", "fee_collector", "bonded_tokens_pool"} {
+		pair = append(pair, KRecipient(ModePay, r), KRecipient(ModeForward, r), KRecipient(ModeSuicide, r))
+	}
+	pair = append(pair, KRecipient(ModeForward, RcpSink))
+	return
+}()
+
+// c04RecipientKindsPairThorough: all three modes for every gadget recipient (adds distribution and suicide:@sink).
+var c04RecipientKindsPairThorough = func() (pair []TxKind) {
+	for _, r := range GadgetRecipients {
+		if r.IsModule() {
+			pair = append(pair, KRecipient(ModePay, r))
+		}
+		pair = append(pair, KRecipient(ModeForward, r), KRecipient(ModeSuicide, r))
+	}
+	return
+}()
+
+// ledgerKindSets gives the alphabets of a ledger check: `single` for single-tx blocks and two-block histories, `pair` for the
+// multi-tx products. C05 keeps the basic alphabet.
+func ledgerKindSets(id string, thorough bool) (single, pair []TxKind) {
+	if id != "C04" {
+		return ledgerKinds, ledgerKinds
+	}
+	single = append(append([]TxKind{}, ledgerKinds...), c04RecipientKindsWide...)
+	pair = append(append([]TxKind{}, ledgerKinds...), c04RecipientKindsPair...)
+	if thorough {
+		pair = append(append([]TxKind{}, ledgerKinds...), c04RecipientKindsPairThorough...)
+	}
+	return
+}
+
 // pilotGas measures the gas used by each kind with its default limit (single-tx block, 40M world).
-func pilotGas() map[TxKind]uint64 {
+func pilotGas(kinds []TxKind) map[TxKind]uint64 {
 	out := map[TxKind]uint64{}
-	for _, k := range ledgerKinds {
+	for _, k := range kinds {
 		_, bl := ledgerRun(ledgerCase{MaxGas: 40_000_000, Blocks: [][]TxSpec{{{Kind: k, Sender: 0, Fee: FLegacyB}}}})
 		t := bl[0].Txs[0]
 		if t.Rc != nil && t.Rc.HasReceipt {
@@ -34,19 +79,27 @@ func pilotGas() map[TxKind]uint64 {
 	return out
 }
 
-func ledgerCases(thorough bool) []ledgerCase {
-	used := pilotGas()
+func ledgerCases(id string, thorough bool) []ledgerCase {
+	singleKinds, pairKinds := ledgerKindSets(id, thorough)
+	used := pilotGas(singleKinds)
 	var cases []ledgerCase
 	gasVariants := func(k TxKind) []uint64 {
 		u := used[k]
 		return []uint64{u, u + 1, 2 * u, 6_000_000}
 	}
 	// single-tx blocks: full product kind × fee × gas limit × world
-	for _, mg := range []int64{40_000_000, 100_000} {
-		for _, k := range ledgerKinds {
-			for _, f := range ledgerFees {
-				for _, g := range gasVariants(k) {
-					cases = append(cases, ledgerCase{MaxGas: mg, Blocks: [][]TxSpec{{{Kind: k, Sender: 0, Fee: f, GasLimit: g}}}})
+	// (C04: also from the state after a warm-up block, i.e. with the evm module account already in existence)
+	warms := []bool{false}
+	if id == "C04" {
+		warms = []bool{false, true}
+	}
+	for _, warm := range warms {
+		for _, mg := range []int64{40_000_000, 100_000} {
+			for _, k := range singleKinds {
+				for _, f := range ledgerFees {
+					for _, g := range gasVariants(k) {
+						cases = append(cases, ledgerCase{MaxGas: mg, Warm: warm, Blocks: [][]TxSpec{{{Kind: k, Sender: 0, Fee: f, GasLimit: g}}}})
+					}
 				}
 			}
 		}
@@ -61,9 +114,9 @@ func ledgerCases(thorough bool) []ledgerCase {
 		combos = []fg{{FLegacyB, 2}, {FDynTip1Cap, 1}, {FLegacy2B, 3}, {FDynTip0, 0}}
 	}
 	for _, mg := range []int64{40_000_000, 100_000} {
-		for _, k1 := range ledgerKinds {
+		for _, k1 := range pairKinds {
 			for _, c1 := range combos {
-				for _, k2 := range ledgerKinds {
+				for _, k2 := range pairKinds {
 					for _, c2 := range combos {
 						for _, sameSender := range []bool{false, true} {
 							s2 := 1
@@ -85,17 +138,29 @@ func ledgerCases(thorough bool) []ledgerCase {
 		{{Kind: KBurn, Sender: 2, Fee: FLegacyB, GasLimit: 70000}, {Kind: KSuicide2, Sender: 3, Fee: FLegacyB}},
 		{{Kind: KSclear, Sender: 2, Fee: FLegacy2B}},
 	}
-	for _, f := range firsts {
-		for _, k := range ledgerKinds {
+	if id == "C04" {
+		// first blocks that move (or try to move) value to module accounts in all three ways
+		firsts = append(firsts,
+			[]TxSpec{{Kind: KRecipient(ModePay, "evm"), Sender: 2, Fee: FLegacyB, GasLimit: 30000}, {Kind: KRecipient(ModeSuicide, "fee_collector"), Sender: 3, Fee: FDynTip1Cap}},
+			[]TxSpec{{Kind: KRecipient(ModeForward, "fee_collector"), Sender: 2, Fee: FLegacy2B}, {Kind: KRecipient(ModeSuicide, "evm"), Sender: 2, Fee: FLegacyB}, {Kind: KRecipient(ModePay, "distribution"), Sender: 0, Fee: FDynTip0}},
+		)
+	}
+	for fi, f := range firsts {
+		for _, k := range singleKinds {
 			for _, c1 := range combos {
-				cases = append(cases, ledgerCase{MaxGas: 100_000, Blocks: [][]TxSpec{f, {{Kind: k, Sender: 0, Fee: c1.f, GasLimit: gasVariants(k)[c1.g]}}}})
+				// the two C04 first blocks run in the 40M world (all their txs fit) after a warm-up block
+				mg, warm := int64(100_000), false
+				if fi >= 2 {
+					mg, warm = 40_000_000, true
+				}
+				cases = append(cases, ledgerCase{MaxGas: mg, Warm: warm, Blocks: [][]TxSpec{f, {{Kind: k, Sender: 0, Fee: c1.f, GasLimit: gasVariants(k)[c1.g]}}}})
 			}
 		}
 	}
 	if thorough {
 		// three-tx blocks with a cosmos tx in the middle
-		for _, k1 := range ledgerKinds {
-			for _, k3 := range ledgerKinds {
+		for _, k1 := range pairKinds {
+			for _, k3 := range pairKinds {
 				cases = append(cases, ledgerCase{MaxGas: 100_000, Blocks: [][]TxSpec{{
 					{Kind: k1, Sender: 0, Fee: FDynTip1Cap, GasLimit: gasVariants(k1)[2]},
 					{Kind: KCosmosSend, Sender: 1},
@@ -201,6 +266,79 @@ func c04Oracle(c ledgerCase, blocks []*blockObs) []ev.Finding {
 	return out
 }
 
+// c04RecipientSanity: the value-recipient part of the alphabet is what it claims to be. (1) ModuleRecipients are exactly the module
+// accounts of the running app, at the addresses the kinds use; (2) the gadgets work: with an ordinary recipient the forwarding
+// gadget passes the value on, the self-destructing gadget hands over its whole balance, the plain payment arrives - so a
+// module-account recipient is the only difference between these controls and the kinds under test.
+func c04RecipientSanity(run *ev.Run) (out []ev.Finding) {
+	fail := func(detail string, c interface{}) {
+		if c == nil {
+			c = map[string]string{"part": "recipient-sanity"}
+		}
+		out = append(out, ev.Finding{Clause: "alphabet-sanity", Detail: detail, Replay: c})
+	}
+	w := ledgerWorld(ledgerCase{MaxGas: 40_000_000})
+	w.Block(nil)
+	perms := w.App.AccountKeeper.GetModulePermissions()
+	blocked := 0
+	for _, r := range ModuleRecipients {
+		a := w.App.AccountKeeper.GetModuleAddress(string(r))
+		if a == nil || common.BytesToAddress(a) != r.StaticAddr() {
+			fail(fmt.Sprintf("recipient %q is not a module account of the app (module address %v)", r, a), nil)
+			continue
+		}
+		if w.App.BankKeeper.BlockedAddr(a) {
+			blocked++
+		}
+	}
+	if len(perms) != len(ModuleRecipients) {
+		fail(fmt.Sprintf("the app has %d module accounts, the alphabet names %d", len(perms), len(ModuleRecipients)), nil)
+	}
+	run.Note("value-recipient alphabet: %d module accounts (all module accounts of the app), %d of them on the bank keeper's blocked list", len(ModuleRecipients), blocked)
+	for _, x := range []struct {
+		kind   TxKind
+		gains  func(w int) common.Address
+		amount int64
+		gadget common.Address
+	}{
+		{KRecipient(ModePay, RcpWallet), func(int) common.Address { return walletAddr(1) }, RecipientValue, common.Address{}},
+		{KRecipient(ModeForward, RcpSink), func(int) common.Address { return AddrSink }, RecipientValue, AddrForwardTo(RcpSink)},
+		{KRecipient(ModeSuicide, RcpSink), func(int) common.Address { return AddrSink }, SuicideGadgetFunds, AddrSuicideTo(RcpSink)},
+	} {
+		for _, warm := range []bool{false, true} {
+			c := ledgerCase{MaxGas: 40_000_000, Warm: warm, Blocks: [][]TxSpec{{{Kind: x.kind, Sender: 0, Fee: FLegacyB, GasLimit: 150000}}}}
+			_, bl := ledgerRun(c)
+			b := bl[0]
+			if b.Panic != "" || b.Err != nil || b.Txs[0].Class != "committed-ok" {
+				fail(fmt.Sprintf("control %s must succeed: %s panic=%q err=%v log=%.120q", x.kind, b.outcome(), b.Panic, b.Err, b.Txs[0].Log), c)
+				continue
+			}
+			if d := delta(b, x.gains(0), ledgerDenoms[0]); d.Cmp(big.NewInt(x.amount)) != 0 {
+				fail(fmt.Sprintf("control %s: recipient gained %s, want %d", x.kind, d, x.amount), c)
+			}
+			if x.gadget != (common.Address{}) {
+				if v := bal(b.Post, x.gadget, ledgerDenoms[0]); v.Sign() != 0 {
+					fail(fmt.Sprintf("control %s: gadget keeps %s", x.kind, v), c)
+				}
+			}
+			run.Count("recipient_controls_ok", 1)
+		}
+	}
+	// every gadget of a module recipient is installed with the code / funds the kinds rely on
+	for _, r := range GadgetRecipients {
+		ctx := w.Ctx()
+		for _, a := range []common.Address{AddrForwardTo(r), AddrSuicideTo(r)} {
+			if len(w.App.EvmKeeper.GetCode(ctx, w.App.EvmKeeper.GetCodeHash(ctx, a.Bytes()))) == 0 {
+				fail(fmt.Sprintf("gadget %s of recipient %q has no code", a.Hex(), r), nil)
+			}
+		}
+		if v := w.Balance(ctx, AddrSuicideTo(r), ledgerDenoms[0]); v.Cmp(big.NewInt(SuicideGadgetFunds)) != 0 {
+			fail(fmt.Sprintf("self-destruct gadget of %q holds %s, want %d", r, v, SuicideGadgetFunds), nil)
+		}
+	}
+	return out
+}
+
 func runLedgerCheck(id string, replay string) int {
 	run := ev.NewRun(id, "model_checking")
 	run.Assumptions = []string{
@@ -226,6 +364,9 @@ func runLedgerCheck(id string, replay string) int {
 				_, _, fs := c05RefundRun(c05RefundWorld(), rc)
 				return fs
 			}
+			if id == "C04" && probe.Part == "recipient-sanity" {
+				return c04RecipientSanity(run)
+			}
 			var c ledgerCase
 			if err := json.Unmarshal(raw, &c); err != nil {
 				fmt.Fprintln(os.Stderr, err)
@@ -233,16 +374,26 @@ func runLedgerCheck(id string, replay string) int {
 			}
 			_, bl := ledgerRun(c)
 			fmt.Println("outcome:", outcomeOf(bl))
+			for bi, b := range bl {
+				for i, t := range b.Txs {
+					fmt.Printf("  block %d tx %d %s: class=%s code=%d vmerr=%q log=%q\n", bi, i, t.Spec, t.Class, t.Code, t.VmErr, t.Log[:min(len(t.Log), 160)])
+				}
+			}
 			return oracle(c, bl)
 		})
 	}
 	var cases []ledgerCase
 	if !ev.IsShardChild() || true {
-		cases = ledgerCases(run.Thorough())
+		cases = ledgerCases(id, run.Thorough())
 	}
 	run.Sharded(Shards(), func(shard, n int) {
 		if id == "C05" && shard == 0 {
 			c05RefundPass(run, c05RefundWorld())
+		}
+		if id == "C04" && shard == n-1 {
+			for _, f := range c04RecipientSanity(run) {
+				run.Fail(f)
+			}
 		}
 		for i, c := range cases {
 			if i%n != shard {
@@ -270,6 +421,10 @@ func runLedgerCheck(id string, replay string) int {
 			nontrivial := false
 			for _, b := range bl {
 				for _, t := range b.Txs {
+					if mode, r, ok := t.Spec.Kind.ValueRecipient(); ok && r.IsModule() {
+						run.Count("module_recipient_txs", 1)
+						run.Count("module_recipient_txs_"+string(mode)+"_"+t.Class, 1)
+					}
 					if t.Class == "committed-ok" || t.Class == "committed-vmerr" {
 						if t.Eth != nil && t.Rc.GasUsed < t.Eth.Gas() {
 							nontrivial = true // a refund of unused gas was due
@@ -299,7 +454,12 @@ func runLedgerCheck(id string, replay string) int {
 	if id == "C05" {
 		refundRule = "; refund pass (keeper level, counting tracer): contracts clearing 0..8 pre-set slots and one setting fresh slots x 7 gas limits {3M, consumed, consumed+1, 2x, 5x, 6M, 30M}: reported gas used = consumed - min(4800 x clears, consumed/5) and independent of the limit"
 	}
-	run.Coverage["rule"] = refundRule[min(2, len(refundRule)):] + " " + fmt.Sprintf("single-tx blocks: full product of %d kinds × %d fee shapes × 4 gas limits {used, used+1, 2×used, 6M} × MaxGas∈{40M,100k}; two-tx blocks: (kind × fee/gas combo)² × {same, different sender} × both worlds; two-block histories after 2 fixed first blocks%s. distinct_nontrivial = distinct histories in which an unused-gas refund was due or a tx failed after admission", len(ledgerKinds), len(ledgerFees), map[bool]string{false: "", true: "; three-tx blocks with a Cosmos tx in the middle"}[run.Thorough()])
+	singleKinds, pairKinds := ledgerKindSets(id, run.Thorough())
+	recipientRule := ""
+	if id == "C04" {
+		recipientRule = fmt.Sprintf("; kinds = 16 basic kinds + value-recipient kinds <mode>:<recipient> (value %d as top-level `to` = pay, as value-carrying CALL from a gadget contract = forward, whole balance %d of a gadget as SELFDESTRUCT beneficiary = suicide): single-tx blocks and second blocks use pay x all %d module accounts + @self + @wallet and forward/suicide x {@sink, evm, fee_collector, bonded_tokens_pool, distribution}, multi-tx blocks use %s; single-tx blocks both from genesis and after a warm-up block (evm module account exists); 2 more first blocks made of module-recipient txs", RecipientValue, SuicideGadgetFunds, len(ModuleRecipients), map[bool]string{false: "pay/forward/suicide x {evm, fee_collector, bonded_tokens_pool} + forward:@sink", true: "pay/forward/suicide x {evm, fee_collector, bonded_tokens_pool, distribution} + forward:@sink + suicide:@sink"}[run.Thorough()])
+	}
+	run.Coverage["rule"] = refundRule[min(2, len(refundRule)):] + " " + fmt.Sprintf("single-tx blocks: full product of %d kinds × %d fee shapes × 4 gas limits {used, used+1, 2×used, 6M} × MaxGas∈{40M,100k}; two-tx blocks: (%d kinds × fee/gas combo)² × {same, different sender} × both worlds; two-block histories after fixed first blocks%s%s. distinct_nontrivial = distinct histories in which an unused-gas refund was due or a tx failed after admission", len(singleKinds), len(ledgerFees), len(pairKinds), map[bool]string{false: "", true: "; three-tx blocks with a Cosmos tx in the middle"}[run.Thorough()], recipientRule)
 	return run.Finish()
 }
 
